@@ -396,7 +396,7 @@ def forward_signatures(func, calls, args, kwargs, sig):
             # the call unpacks something that is known and is not a
             # sequence / a mapping: it cannot succeed
             raise UnknownForwards
-        using_partial = wrapped_func == functools.partial
+        using_partial = wrapped_func is functools.partial
         if using_partial:
             if not fwdargsvals:
                 raise UnknownForwards
